@@ -10,6 +10,7 @@ same world materialised on the real file system (which also cross-validates SimF
 import copy
 import os
 import random
+import re
 import shutil
 import subprocess
 
@@ -139,7 +140,13 @@ def world_for(case, variant):
                  for pth, t in files.items()}
     env = {'HOME': v.get('home', '/sim/home'), 'PWD': cwd}
     env.update(v.get('env', {}))
+    modes = {}
+    if v.get('unreadable_extra'):
+        # credentials: a copy of an include file that this user cannot read (it still EXISTS in a searched directory)
+        for rel in case.get('never_read', []):
+            modes[f'{root}/{rel}'] = 0o000
     w = {'files': files, 'links': links, 'argv': argv, 'cwd': cwd, 'env': env, 'faults': list(v.get('faults', [])),
+         'modes': modes, 'uid': v.get('uid', 1000),
          'encoding': v.get('encoding', 'utf-8'), 'stdout_encoding': v.get('stdout_encoding', 'utf-8'),
          'epoch': v.get('epoch', 1.7e9), 'set_seed': v.get('set_seed'), 'list_seed': v.get('list_seed'),
          'mtimes': {p: v['mtime_of'](i) for i, p in enumerate(sorted(files))} if callable(v.get('mtime_of')) else (
@@ -186,8 +193,30 @@ def compare(o0, o1, case):
     return v
 
 
+def isa_same_length_edit(text, k):
+    """another ISA of exactly the same length: one single-digit `value` changed (opcode / field value)"""
+    ms = list(re.finditer(r'(\bvalue"?: )(\d)(?!\d)', text))
+    if not ms:
+        return None
+    m = ms[k % len(ms)]
+    return text[:m.start(2)] + str(int(m.group(2)) ^ 1) + text[m.end(2):]
+
+
 def run_variant(case, variant):
     w, root = world_for(case, variant)
+    prior = (variant or {}).get('prior')
+    if prior:
+        # a two-run history on one file system: an earlier run for another ISA text of the same length (and, in the
+        # simulated file system, the same timestamps) at the same path; whatever it leaves behind - outputs, temp
+        # files, caches - is what the compared run starts from
+        other = isa_same_length_edit(case['isa_text'], prior.get('k', 0))
+        if other is not None:
+            w1, _ = world_for(dict(case, isa_text=other), {k: x for k, x in variant.items() if k != 'prior'})
+            r1 = child.run_world(w1)
+            if r1['kind'] in ('exit', 'exception'):
+                keep = {pth: t for pth, t in r1.get('files', {}).items() if pth not in w['files']}
+                w['files'] = dict(keep, **w['files'])
+                w['dirs'] = sorted(set(w.get('dirs', [])) | set(r1.get('dirs', [])))
     r = child.run_world(w)
     return r, outputs(r, root, case, (variant or {}).get('stdout_encoding', 'utf-8'))
 
@@ -367,6 +396,9 @@ def gen_variant(rnd, ndirs, single=None):
         v['mtime_skew'] = rnd.choice([0, 7.7e7, 1.23e8])      # different (and differently ordered) file timestamps
     if 'pre' in chosen:
         v['pre_image'] = True
+    if 'env' in chosen or 'cwd' in chosen:
+        v['uid'] = rnd.choice([0, 1000, 1000, 501])
+        v['unreadable_extra'] = rnd.random() < 0.6
     return v
 
 
@@ -422,6 +454,7 @@ def explore(subseed, cfg):
                     break
             pr['ambiguous_same_size_copy'] = 1
         case['extra_files'] = {f'{other}/{inc["name"]}': dup}
+        case['never_read'] = [f'{other}/{inc["name"]}']       # the ambiguity is reported before either copy is opened
         case['inc_dirs'] = progtree.include_dirs(main) + [other]
         ambiguous = True
         pr['ambiguous_include_present'] = 1
@@ -500,6 +533,8 @@ def explore(subseed, cfg):
                 do({'faults': [{'at': idx, 'kind': rnd.choice(['write_short_after', 'write_enospc_after']), 'k': kk}]},
                    'fault')
                 pr['runs_with_short_or_failed_write'] = pr.get('runs_with_short_or_failed_write', 0) + 1
+    do({'prior': {'k': rnd.randrange(0, 50)}}, 'history')
+    pr['two_run_histories'] = pr.get('two_run_histories', 0) + 1
     for _ in range(cfg.get('variants', 10) - 6):
         do(gen_variant(rnd, ndirs), 'combo')
     # cross-process tier on a subset of worlds
